@@ -197,7 +197,48 @@ def listeners(ctx, rid, fs, lst_cls, owner_field):
         ctx.finding(rid, sc.id, 'to_check', '%s::something_changed must mark every instance the atom may be on (variable and constant tau)' % lst_cls, loc=sc.loc)
 
 
+def notification_keys(ctx, rid, fs):
+    """every `l->X_value_change(V)` of the theories and of the sat core is made to the listeners registered under that very variable: the loop ranges over
+    `at->second` with `at = listening.find(K)` and K == V (shared by the smart types: a notification sent to the listeners of another variable never
+    reaches the atom that has to be re-checked)."""
+    from ..expr import LocalEnv as _LE
+    n_sites = 0
+    for f in fs.defined():
+        if not (f.get('class') or '').startswith('smt::'):
+            continue
+        env = None
+        for n in f.nodes():
+            if n.get('k') != 'CXXMemberCallExpr' or not (n.get('callee_name') or '').endswith('_value_change') or 'listener' not in (n.get('callee_name') or ''):
+                continue
+            if env is None:
+                env = _LE(f)
+            V = canon(n['c'][1], env) if len(n.get('c') or ()) > 1 else None
+            K = None
+            for a in f.ancestors(n):
+                if a.get('k') == 'CXXForRangeStmt':
+                    r = canon(a['slots']['range'], env)         # (. (mcall ...::find listening K) second)
+                    for t in _subterms(r):
+                        if isinstance(t, tuple) and len(t) == 4 and t[0] == 'mcall' and str(t[1]).endswith('::find') and 'listening' in show(t[2]):
+                            K = t[3]
+                    break
+            n_sites += 1
+            ctx.instance(rid, [f.id, 'notify', short(n.get('loc'))], {'function': f.id, 'listeners_of': show(K), 'told_about': show(V), 'ok': K is not None and K == V})
+            if K is not None and K != V:
+                ctx.finding(rid, f.id, 'notify:%s' % show(V), '%s tells the listeners registered for %s that %s changed: the listeners of %s never hear about it, and a smart type whose atom depends on it '
+                            'is not re-checked' % (f.name, show(K), show(V), show(V)), node=n, expect='listening.find(v) ... l->value_change(v)')
+    if n_sites < 8:
+        raise AnalysisBroken('notification sites of the theories: found %d, expected at least 8' % n_sites)
+
+
+def _subterms(t):
+    yield t
+    if isinstance(t, tuple):
+        for x in t:
+            yield from _subterms(x)
+
+
 def listener_base(ctx, rid, fs):
+    notification_keys(ctx, rid, fs)
     f = fs.fn('ratio::atom_listener::atom_listener')
     calls = {n.get('callee_name').rsplit('::', 1)[-1] for n in f.nodes() if (n.get('callee_name') or '').rsplit('::', 1)[-1] in ('listen_sat', 'listen_lra', 'listen_rdl', 'listen_set')}
     ctx.instance(rid, [f.id, 'kinds'], {'listens_on': sorted(calls)})
